@@ -69,6 +69,10 @@ func vh_C15_routes() {
 	want := vAnd(vOr(r.method == "", method == r.method), regexp.MustCompile(r.re).MatchString(path) != r.negate)
 	verifTag("query-influences-route", vOr(query != "", forceQ))
 	verifAssert("C15.route.equiv", got == want)
+	// the bypass decision is the disjunction of its documented reasons: a matching rule exempts
+	// the request whatever the preflight switch says (trusted IPs: none configured here)
+	p.skipAuthPreflight = ndBool("preflight-with-rules")
+	verifAssert("C15.request.rule-or-preflight", p.IsAllowedRequest(req) == vOr(want, vAnd(p.skipAuthPreflight, method == "OPTIONS")))
 	// preflight disjunct
 	p.skipAuthPreflight = ndBool("preflight")
 	p.allowedRoutes = nil
